@@ -31,7 +31,7 @@ KANI_LIB_C = KANI_HOME + "/library/kani/kani_lib.c"
 CBMC_FLAGS = [
     "--no-malloc-may-fail", "--no-undefined-shift-check", "--no-signed-overflow-check",
     "--nan-check", "--no-self-loops-to-assumptions", "--no-pointer-primitive-check",
-    "--object-bits", "16", "--unwinding-assertions", "--verbosity", "6",
+    "--object-bits", "16", "--unwinding-assertions", "--verbosity", "8",
 ]
 
 
@@ -214,6 +214,8 @@ def parse_cbmc(logpath):
     cur_file, cur_fn = None, None
     in_results = False
     sat_secs = 0.0
+    symex_secs = 0.0
+    dp_secs = 0.0
     nvars = None
     nfailed_reported = None
     ntotal_reported = None
@@ -229,6 +231,16 @@ def parse_cbmc(logpath):
                     sat_secs += float(line.split()[2].rstrip("s"))
                 except Exception:
                     pass
+            for key in ("Runtime Symex:", "Runtime decision procedure:"):
+                if line.startswith(key):
+                    try:
+                        v = float(line.split()[-1].rstrip("s"))
+                        if key == "Runtime Symex:":
+                            symex_secs += v
+                        else:
+                            dp_secs += v
+                    except Exception:
+                        pass
             m = re.match(r"^(\d+) variables, (\d+) clauses", line)
             if m:
                 nvars = (int(m.group(1)), int(m.group(2)))
@@ -265,7 +277,7 @@ def parse_cbmc(logpath):
             m = FILE_RE.match(line)
             if m:
                 cur_file, cur_fn = m.group("file"), m.group("fn")
-    return {"props": props, "verdict": verdict, "sat_secs": sat_secs, "vars_clauses": nvars,
+    return {"props": props, "verdict": verdict, "sat_secs": sat_secs, "symex_secs": symex_secs, "dp_secs": dp_secs, "vars_clauses": nvars,
             "nfailed_reported": nfailed_reported, "ntotal_reported": ntotal_reported}
 
 
@@ -355,6 +367,9 @@ def run_harness(h, symtab, mangled, clibs, workdir):
         return res
     p = parse_cbmc(lg)
     res["sat_secs"] = round(p["sat_secs"], 2)
+    res["symex_secs"] = round(p["symex_secs"], 2)
+    res["dp_secs"] = round(p["dp_secs"], 2)
+    res["vars_clauses"] = p.get("vars_clauses")
     res["vars_clauses"] = p["vars_clauses"]
     res["nprops"] = len(p["props"])
     if p["verdict"] not in ("SUCCESSFUL", "FAILED"):
